@@ -133,3 +133,435 @@ def thread_flags(raw, types):
         if not changed:
             break
     return n_threaded
+
+
+HB_TABLE = "hashbrown::raw::RawTable"
+
+
+def desugar_option_like(d):
+    """A two-variant enum of the crate with one unit variant and one variant holding exactly one value, that value being a record
+    with a hashbrown table in it (`enum Resize<T> { Idle, Moving(OldTable<T>) }`), *is* `Option<OldTable<T>>` under another name.
+    The facts are rewritten to say so — types, aggregates, downcasts, field projections, discriminant values — so that every rule
+    reads the resize state the way it reads `Option<OldTable<T>>`.  The enum's own helper methods stay ordinary functions of the
+    crate (the inlined views look through them).  Returns the list of enums rewritten."""
+    if d.get("_optlike"):
+        return d["_optlike"]
+    T = d["types"]
+    adts = {a["path"]: a for a in d["adts"]}
+    done = []
+    for a in d["adts"]:
+        if a.get("kind") != "Enum" or len(a["variants"]) != 2 or not a["path"].startswith(d["crate"] + "::"):
+            continue
+        nf = [len(v["fields"]) for v in a["variants"]]
+        if sorted(nf) != [0, 1]:
+            continue
+        pidx = nf.index(1)
+        pf = a["variants"][pidx]["fields"][0]
+        pt = T[pf["ty"]]
+        pa = adts.get(pt.get("adt"))
+        if pt.get("k") != "adt" or pa is None or pa.get("kind") != "Struct":
+            continue
+        if not any(T[f["ty"]].get("adt") == HB_TABLE for f in pa["variants"][0]["fields"]):
+            continue
+        E = a["path"]
+        names = {a["variants"][pidx]["name"]: "Some", a["variants"][1 - pidx]["name"]: "None"}
+        # types
+        e_ids = set()
+        for i, t in enumerate(list(T)):
+            if t.get("k") == "adt" and t.get("adt") == E:
+                e_ids.add(i)
+                args = t.get("args", [])
+                inner = None
+                if args == pt.get("args", []):
+                    inner = pf["ty"]
+                else:
+                    for j, u in enumerate(T):
+                        if u.get("k") == "adt" and u.get("adt") == pt["adt"] and u.get("args", []) == args:
+                            inner = j
+                    if inner is None:
+                        T.append({"s": "%s<%s>" % (pt["adt"].split("::", 1)[-1], ", ".join(T[x]["s"] for x in args)), "has_param": t.get("has_param"),
+                                  "k": "adt", "adt": pt["adt"], "args": list(args)})
+                        inner = len(T) - 1
+                t["desugared_from"] = E
+                t["adt"] = "core::option::Option"
+                t["args"] = [inner]
+                t["s"] = "core::option::Option<%s>" % T[inner]["s"]
+        a["kind"] = "EnumDesugared"
+
+        def fix_proj(proj):
+            for i, e in enumerate(proj):
+                if e.get("k") == "field" and e.get("adt") == E:
+                    if i > 0 and proj[i - 1].get("k") == "downcast":
+                        proj[i - 1]["variant"] = names.get(proj[i - 1].get("variant"), proj[i - 1].get("variant"))
+                        proj[i - 1]["vidx"] = 1 if proj[i - 1]["variant"] == "Some" else 0
+                    e["adt"] = "core::option::Option"
+                    e["variant"] = "Some"
+
+        def walk(x):
+            if isinstance(x, dict):
+                if x.get("k") == "aggregate" and x.get("adt") == E:
+                    x["adt"] = "core::option::Option"
+                    x["variant"] = names.get(x.get("variant"), x.get("variant"))
+                    x["vidx"] = 1 if x["variant"] == "Some" else 0
+                if isinstance(x.get("proj"), list):
+                    fix_proj(x["proj"])
+                for v in x.values():
+                    walk(v)
+            elif isinstance(x, list):
+                for v in x:
+                    walk(v)
+        walk(d["bodies"])
+        if pidx != 1:
+            # discriminant values: the payload variant must read as 1 (Some), the unit variant as 0 (None)
+            for b in d["bodies"]:
+                dl = set()
+                for blk in b["blocks"]:
+                    for st in blk["stmts"]:
+                        if st.get("k") == "assign" and st["rv"].get("k") == "discr" and st["rv"]["place"].get("ty") in e_ids and not st["place"]["proj"]:
+                            dl.add(st["place"]["local"])
+                        if st.get("k") == "set_discr" and st["place"].get("ty") in e_ids and "variant_index" in st:
+                            st["variant_index"] = 1 - st["variant_index"]
+                grew = True
+                while grew:
+                    grew = False
+                    for blk in b["blocks"]:
+                        for st in blk["stmts"]:
+                            if st.get("k") == "assign" and st["rv"].get("k") == "use" and st["rv"]["op"].get("k") in ("copy", "move") \
+                                    and not st["rv"]["op"]["place"]["proj"] and st["rv"]["op"]["place"]["local"] in dl \
+                                    and not st["place"]["proj"] and st["place"]["local"] not in dl:
+                                dl.add(st["place"]["local"])
+                                grew = True
+                for blk in b["blocks"]:
+                    t = blk["term"]
+                    if t.get("k") == "switch" and t["discr"].get("k") in ("copy", "move") and not t["discr"]["place"]["proj"] and t["discr"]["place"]["local"] in dl:
+                        t["targets"] = [[1 - v if v in (0, 1) else v, tb] for v, tb in t["targets"]]
+        done.append({"enum": E, "payload": pt["adt"], "some": a["variants"][pidx]["name"], "none": a["variants"][1 - pidx]["name"]})
+    d["_optlike"] = done
+    return done
+
+
+def replace_none_is_take(raw, types):
+    """`mem::replace(&mut x, None)` on an Option is `x.take()`: rewritten so, for every rule that knows `take`."""
+    if raw.get("_rnt"):
+        return 0
+    raw["_rnt"] = True
+    defs = {}
+    for blk in raw["blocks"]:
+        for st in blk["stmts"]:
+            if st["k"] == "assign" and not st["place"]["proj"]:
+                defs.setdefault(st["place"]["local"], []).append(st)
+        t = blk["term"]
+        if t["k"] == "call" and t.get("dest") is not None and not t["dest"]["proj"]:
+            defs.setdefault(t["dest"]["local"], []).append(None)
+    n = 0
+    for blk in raw["blocks"]:
+        t = blk["term"]
+        if t["k"] != "call" or t.get("callee") != "core::mem::replace" or len(t["args"]) != 2 or not t.get("targs"):
+            continue
+        ty = types[t["targs"][0]]
+        if ty.get("adt") != "core::option::Option":
+            continue
+        a = t["args"][1]
+        if a["k"] not in ("copy", "move") or a["place"]["proj"]:
+            continue
+        ds = [x for x in defs.get(a["place"]["local"], [])]
+        if len(ds) != 1 or ds[0] is None or ds[0]["rv"].get("k") != "aggregate" or ds[0]["rv"].get("adt") != "core::option::Option" \
+                or ds[0]["rv"].get("variant") != "None":
+            continue
+        ds[0]["k"] = "nop"          # the `None` that was handed in: consumed by the call, nothing else reads it
+        ds[0]["was"] = "assign None (argument of mem::replace)"
+        t["rewritten_from"] = "core::mem::replace(_, None)"
+        t["callee"] = "core::option::Option::<T>::take"
+        t["callee_args"] = "core::option::Option::<%s>::take" % ty["s"]
+        t["callee_dpath"] = "core::option::{impl#0}::take"
+        t["resolved"] = {"path": "core::option::Option::<T>::take", "dpath": "core::option::{impl#0}::take", "kind": "Item", "local": False}
+        t["func"] = {"k": "const", "ty": t["func"].get("ty"), "text": t["callee_args"], "fn": t["callee"], "fn_args": t["callee_args"]}
+        t["targs"] = list(ty.get("args", []))
+        t["args"] = [t["args"][0]]
+        n += 1
+    return n
+
+
+# ---------------------------------------------------------------------------------------------------------------------
+# helper functions of the crate that are, statement for statement, one of Option's own methods
+# ---------------------------------------------------------------------------------------------------------------------
+OPT_ADT = "core::option::Option"
+STD_FN = {
+    "is_some": ("core::option::Option::<T>::is_some", "core::option::{impl#0}::is_some"),
+    "is_none": ("core::option::Option::<T>::is_none", "core::option::{impl#0}::is_none"),
+    "as_ref": ("core::option::Option::<T>::as_ref", "core::option::{impl#0}::as_ref"),
+    "as_mut": ("core::option::Option::<T>::as_mut", "core::option::{impl#0}::as_mut"),
+    "take": ("core::option::Option::<T>::take", "core::option::{impl#0}::take"),
+}
+
+
+def _live_blocks(raw):
+    seen, st = set(), [0]
+    while st:
+        x = st.pop()
+        if x in seen:
+            continue
+        seen.add(x)
+        t = raw["blocks"][x]["term"]
+        st.extend(_succs(t))
+    return [i for i in sorted(seen) if not raw["blocks"][i].get("cleanup")]
+
+
+def _is_noise(st, types, raw):
+    """drop-flag writes and discriminant re-reads that drop elaboration leaves behind: no effect on the result"""
+    if st["k"] in ("nop", "storage_live", "storage_dead"):
+        return True
+    if st["k"] != "assign" or st["place"]["proj"] or st["place"]["local"] == 0:
+        return False
+    rv = st["rv"]
+    if rv["k"] == "use" and rv["op"]["k"] == "const" and types[raw["locals"][st["place"]["local"]]["ty"]].get("k") == "bool":
+        return "flag"
+    if rv["k"] == "discr":
+        return "discr"
+    return False
+
+
+def _classify_option_helper(raw, types, known):
+    """'is_some' | 'is_none' | 'as_ref' | 'as_mut' | 'take' | 'identity' | None for a one-parameter function over an Option"""
+    if raw.get("kind") == "Closure" or raw["arg_count"] != 1:
+        return None
+    pty = types[raw["locals"][1]["ty"]]
+    rty = types[raw["locals"][0]["ty"]]
+    by_ref = pty.get("k") == "ref"
+    inner = types[pty["inner"]] if by_ref else pty
+    if inner.get("adt") != OPT_ADT:
+        return None
+    live = _live_blocks(raw)
+    blocks = raw["blocks"]
+
+    def self_place(pl, payload=False):
+        """(*_1) [as Some].0 for a by-ref parameter, _1 [as Some].0 for a by-value one"""
+        pj = list(pl["proj"])
+        if pl["local"] != 1:
+            return False
+        if by_ref:
+            if not pj or pj[0]["k"] != "deref":
+                return False
+            pj = pj[1:]
+        if not payload:
+            return not pj
+        return len(pj) == 2 and pj[0]["k"] == "downcast" and pj[0].get("variant") == "Some" and pj[1]["k"] == "field" and pj[1]["i"] == 0
+
+    # (a) negation / identity wrapper around a known helper:  _t = helper(&*_1) ; _0 = Not(_t)   |   _t = take-like(&mut *_1); _0 = identity(_t)
+    calls = [i for i in live if blocks[i]["term"]["k"] == "call"]
+    if len(calls) in (1, 2) and not any(blocks[i]["term"]["k"] == "switch" for i in live):
+        seq = []
+        x = 0
+        while True:
+            blk = blocks[x]
+            seq.append(blk)
+            t = blk["term"]
+            if t["k"] == "return":
+                break
+            nx = t.get("target") if t["k"] in ("call", "goto", "drop") else None
+            if nx is None or len(seq) > 6:
+                return None
+            x = nx
+        stmts = [(s, None) for blk in seq for s in blk["stmts"] if not _is_noise(s, types, raw)]
+        cts = [blk["term"] for blk in seq if blk["term"]["k"] == "call"]
+        if any(blk["term"]["k"] == "drop" for blk in seq):
+            return None
+        vals = {}      # local -> symbolic value
+        ok = True
+        bi = 0
+        for blk in seq:
+            for s in blk["stmts"]:
+                if _is_noise(s, types, raw):
+                    continue
+                if s["k"] != "assign" or s["place"]["proj"]:
+                    return None
+                rv = s["rv"]
+                l = s["place"]["local"]
+                if rv["k"] == "ref" and self_place(rv["place"]) and by_ref:
+                    vals[l] = "self"
+                elif rv["k"] == "use" and rv["op"]["k"] in ("copy", "move") and not rv["op"]["place"]["proj"]:
+                    src = rv["op"]["place"]["local"]
+                    vals[l] = "self" if (src == 1 and True) else vals.get(src)
+                elif rv["k"] == "unop" and rv["op"] == "Not" and rv["a"]["k"] in ("copy", "move") and not rv["a"]["place"]["proj"]:
+                    v = vals.get(rv["a"]["place"]["local"])
+                    vals[l] = {"is_some": "is_none", "is_none": "is_some"}.get(v)
+                else:
+                    return None
+                if vals.get(l) is None:
+                    return None
+            t = blk["term"]
+            if t["k"] == "call":
+                if t.get("dest") is None or t["dest"]["proj"] or len(t["args"]) != 1:
+                    return None
+                a = t["args"][0]
+                av = vals.get(a["place"]["local"]) if a["k"] in ("copy", "move") and not a["place"]["proj"] else None
+                if a["k"] in ("copy", "move") and not a["place"]["proj"] and a["place"]["local"] == 1:
+                    av = "self"
+                callee = t.get("callee")
+                kind = known.get(callee)
+                if kind is None:
+                    for k_, (p_, _) in STD_FN.items():
+                        if callee == p_:
+                            kind = k_
+                if kind is None:
+                    return None
+                if kind == "identity":
+                    if av is None:
+                        return None
+                    vals[t["dest"]["local"]] = av
+                elif av == "self":
+                    vals[t["dest"]["local"]] = kind
+                else:
+                    return None
+        r = vals.get(0)
+        if r in ("is_some", "is_none") and rty.get("k") == "bool":
+            return r
+        if r in ("as_ref", "as_mut", "take") and rty.get("adt") == OPT_ADT:
+            return r
+        if r == "self" and not by_ref and rty.get("adt") == OPT_ADT:
+            return "identity"
+        return None
+    if calls:
+        return None
+    # (b) a two-armed match on the discriminant of self
+    sw = [i for i in live if blocks[i]["term"]["k"] == "switch"]
+    if len(sw) != 1 or sw[0] != 0:
+        return None
+    t = blocks[0]["term"]
+    d = t["discr"]
+    dd = [s for s in blocks[0]["stmts"] if s["k"] == "assign" and s["rv"]["k"] == "discr" and not s["place"]["proj"]
+          and d["k"] in ("copy", "move") and s["place"]["local"] == d["place"]["local"]]
+    if len(dd) != 1 or not self_place(dd[0]["rv"]["place"]):
+        return None
+    if any(not _is_noise(s, types, raw) for s in blocks[0]["stmts"] if s is not dd[0]):
+        return None
+    tg = dict((v, tb) for v, tb in t["targets"])
+    none_bb, some_bb = tg.get(0), tg.get(1)
+    if some_bb is None:
+        some_bb = t["otherwise"]
+    if none_bb is None:
+        none_bb = t["otherwise"]
+    if none_bb == some_bb:
+        return None
+
+    def arm(bb):
+        """statements of a straight-line arm up to the return (noise removed), or None"""
+        out = []
+        n = 0
+        while True:
+            blk = blocks[bb]
+            out += [s for s in blk["stmts"] if not _is_noise(s, types, raw)]
+            tt = blk["term"]
+            if tt["k"] == "return":
+                return out
+            if tt["k"] != "goto" or n > 4:
+                return None
+            bb = tt["target"]
+            n += 1
+    an, as_ = arm(none_bb), arm(some_bb)
+    if an is None or as_ is None:
+        return None
+
+    def const_ret(a):
+        if len(a) == 1 and a[0]["k"] == "assign" and a[0]["place"]["local"] == 0 and not a[0]["place"]["proj"] and a[0]["rv"]["k"] == "use" \
+                and a[0]["rv"]["op"]["k"] == "const" and "val" in a[0]["rv"]["op"]:
+            return a[0]["rv"]["op"]["val"]
+        return None
+    if rty.get("k") == "bool":
+        cn, cs = const_ret(an), const_ret(as_)
+        if (cn, cs) == (0, 1):
+            return "is_some"
+        if (cn, cs) == (1, 0):
+            return "is_none"
+        return None
+    if rty.get("adt") != OPT_ADT:
+        return None
+    # None arm: _0 = None
+    if not (len(an) == 1 and an[0]["k"] == "assign" and an[0]["place"]["local"] == 0 and not an[0]["place"]["proj"] and an[0]["rv"]["k"] == "aggregate"
+            and an[0]["rv"].get("adt") == OPT_ADT and an[0]["rv"].get("variant") == "None"):
+        return None
+    # Some arm: a chain from the payload of self to _0 = Some(x)
+    cur, kind = None, None
+    for s in as_:
+        if s["k"] != "assign" or s["place"]["proj"]:
+            return None
+        rv = s["rv"]
+        l = s["place"]["local"]
+        if cur is None:
+            if rv["k"] == "ref" and self_place(rv["place"], payload=True) and by_ref:
+                kind = "as_mut" if rv.get("mut") else "as_ref"
+                cur = l
+            elif rv["k"] == "use" and rv["op"]["k"] == "move" and self_place(rv["op"]["place"], payload=True) and not by_ref:
+                kind = "identity"
+                cur = l
+            else:
+                return None
+        elif l == 0:
+            if rv["k"] == "aggregate" and rv.get("adt") == OPT_ADT and rv.get("variant") == "Some" and len(rv["ops"]) == 1 \
+                    and rv["ops"][0]["k"] in ("copy", "move") and not rv["ops"][0]["place"]["proj"] and rv["ops"][0]["place"]["local"] == cur:
+                cur = 0
+            else:
+                return None
+        elif rv["k"] == "use" and rv["op"]["k"] in ("copy", "move") and not rv["op"]["place"]["proj"] and rv["op"]["place"]["local"] == cur:
+            cur = l
+        elif rv["k"] == "ref" and len(rv["place"]["proj"]) == 1 and rv["place"]["proj"][0]["k"] == "deref" and rv["place"]["local"] == cur and kind in ("as_ref", "as_mut"):
+            if kind == "as_ref" and rv.get("mut"):
+                return None
+            cur = l                    # re-borrow
+        else:
+            return None
+    if cur != 0:
+        return None
+    if kind == "as_mut" and not pty.get("mut"):
+        return None
+    return kind
+
+
+def std_equivalents(d):
+    """Rewrite calls of crate functions that are exactly Option::is_some / is_none / as_ref / as_mut / take (or the identity on an Option)
+    into calls of those (or into a move).  Returns {function path: what it is}."""
+    if "_stdeq" in d:
+        return d["_stdeq"]
+    T = d["types"]
+    for b in d["bodies"]:
+        replace_none_is_take(b, T)
+    known = {}
+    for _ in range(4):
+        grew = False
+        for b in d["bodies"]:
+            if b["path"] in known or not b["path"].startswith(d["crate"] + "::"):
+                continue
+            k = _classify_option_helper(b, T, known)
+            if k is not None:
+                known[b["path"]] = k
+                grew = True
+        if not grew:
+            break
+    if known:
+        for b in d["bodies"]:
+            if b["path"] in known:
+                continue
+            for blk in b["blocks"]:
+                t = blk["term"]
+                if t["k"] != "call" or t.get("callee") not in known or not (t.get("resolved") or {}).get("local"):
+                    continue
+                kind = known[t["callee"]]
+                if kind == "identity":
+                    if t.get("target") is None or t.get("dest") is None:
+                        continue
+                    blk["stmts"].append({"k": "assign", "place": t["dest"], "rv": {"k": "use", "op": t["args"][0]}, "span": t.get("span"), "was_call": t["callee"]})
+                    blk["term"] = {"k": "goto", "target": t["target"], "span": t.get("span")}
+                    continue
+                path, dpath = STD_FN[kind]
+                aty = T[t["args"][0]["place"]["ty"]] if t["args"][0]["k"] in ("copy", "move") else None
+                oty = T[aty["inner"]] if aty is not None and aty.get("k") == "ref" else aty
+                t["rewritten_from"] = t["callee"]
+                t["callee"] = path
+                t["callee_args"] = "core::option::Option::<%s>::%s" % (T[oty["args"][0]]["s"] if oty and oty.get("args") else "T", kind)
+                t["callee_dpath"] = dpath
+                t["local"] = False
+                t["resolved"] = {"path": path, "dpath": dpath, "kind": "Item", "local": False}
+                t["func"] = {"k": "const", "ty": t["func"].get("ty"), "text": t["callee_args"], "fn": path, "fn_args": t["callee_args"]}
+                t["targs"] = list(oty.get("args", [])) if oty else []
+    d["_stdeq"] = known
+    return known
